@@ -805,6 +805,33 @@ pub fn generate_op_limits(rng: &mut Rng, n: usize, _tier: &str) -> Vec<String> {
             }
         }
     }
+    // several error conditions at once (zero divisor / zero modulus, negative exponent, oversize operand,
+    // wrong arity): which error wins must not depend on the build or the MALACHITE flag
+    {
+        let zeros: Vec<Vec<u8>> = vec![vec![], vec![0], vec![0, 0]];
+        let exps: Vec<Vec<u8>> = vec![vec![], vec![0xff], vec![0x80, 0], vec![1], vec![0x00, 0xff]];
+        let mods: Vec<Vec<u8>> = vec![vec![], vec![0], vec![0, 0], vec![0xff], vec![5], vec![0x00, 0x80]];
+        let bases: Vec<Vec<u8>> = vec![vec![], vec![3], vec![0xff], vec![0x55; 257]];
+        for b in &bases {
+            for e in &exps {
+                for m in &mods {
+                    for &f in &flag_sets {
+                        push("op_modpow", f, vec![T::Atom(b.clone()), T::Atom(e.clone()), T::Atom(m.clone())]);
+                    }
+                }
+            }
+        }
+        for name in ["op_div", "op_divmod", "op_mod"] {
+            for l in [1usize, 257, 1025, 2049] {
+                for z in &zeros {
+                    for &f in &flag_sets {
+                        push(name, f, vec![T::Atom(vec![0x7f; l]), T::Atom(z.clone())]);
+                        push(name, f, vec![T::Atom(z.clone()), T::Atom(vec![0x7f; l])]);
+                    }
+                }
+            }
+        }
+    }
     for _ in 0..n {
         // random picks with redundant leading sign bytes at the boundaries
         let name = *rng.pick(&["op_div", "op_divmod", "op_mod", "op_multiply"]);
@@ -832,7 +859,7 @@ pub fn generate_run_softfork_args(_rng: &mut Rng, _n: usize, _tier: &str) -> Vec
     let mut out = vec![];
     let mut id = 0;
     let body = quote(int(42));
-    for flags in [0u32, 0x1, 0x2, 0x3, 0x10, 0x217, 0x2000, 0x2001, 0x2003] {
+    for flags in [0u32, 0x1, 0x2, 0x3, 0x10, 0x217, 0x2000, 0x2001, 0x2003, 0x100, 0x101, 0x2100] {
         for c in spellings.iter().chain(costs.iter()) {
             for e in &spellings {
                 let p = call(36, vec![quote(T::Atom(c.clone())), quote(T::Atom(e.clone())), quote(body.clone()), quote(atom(&[]))]);
@@ -856,6 +883,64 @@ pub fn huge_cost_corpus() -> Vec<(T, T)> {
         }
         for ext in [9i128, 2] {
             out.push((call(36, vec![quote(T::Atom(b.clone())), quote(int(ext)), quote(int(0)), quote(int(0))]), T::nil()));
+        }
+    }
+    out
+}
+
+/// a bare path program of a boundary bit length with an environment deep enough along the path
+pub fn random_path_program(rng: &mut Rng) -> (T, T) {
+    let bits = *rng.pick(&[6u32, 7, 8, 9, 14, 15, 16, 17, 22, 23, 24, 24, 24, 25, 26, 27, 30, 31, 32, 33, 3, 12, 20]);
+    let v = (1u64 << (bits - 1)) | (rng.next() & ((1u64 << (bits - 1)) - 1));
+    let steps = bits as usize - 1;
+    let mut env = T::Atom(vec![0x5a]);
+    for i in (0..steps).rev() {
+        let bit = (v >> i) & 1 == 1;
+        let other = T::Atom(vec![i as u8 | 0x80]);
+        env = if bit { T::pair(other, env) } else { T::pair(env, other) };
+    }
+    (int(v as i128), env)
+}
+
+/// OP stream for the small-integer fast paths of + - * (and the comparison / bit operators that have
+/// one): operand values at every byte boundary, so that running sums and products carry into a new
+/// byte, both cost models
+pub fn generate_op_fastpath(rng: &mut Rng, n: usize, _tier: &str) -> Vec<String> {
+    let vals: Vec<i128> = vec![0, 1, -1, 0x7f, 0x80, -0x80, -0x81, 0xff, 0x100, 0x7fff, 0x8000, -0x8000, 0xffff, 0x10000, 0x7fffff, 0x800000, 0xffffff,
+                               0x1000000, 0x3ffffff, 0x4000000, -0x3ffffff, 0x7fffffff, 0x80000000, 0xffffffff];
+    let mut out = vec![];
+    let mut id = 0;
+    let mut push = |name: &str, flags: u32, args: Vec<T>| {
+        out.push(format!("OP f{} {} {:x} {} {}", id, name, flags, 100_000_000_000u64, trees::to_hex(&T::list(args))));
+        id += 1;
+    };
+    for name in ["op_add", "op_subtract", "op_multiply"] {
+        for flags in [0u32, 0x2000] {
+            for a in &vals {
+                for b in &vals {
+                    push(name, flags, vec![int(*a), int(*b)]);
+                }
+            }
+            for _ in 0..n.max(20) {
+                let k = rng.below(5) as usize + 3;
+                let args: Vec<T> = (0..k).map(|_| int(*rng.pick(&vals))).collect();
+                push(name, flags, args);
+            }
+            // many copies of the largest inline value: the accumulator outgrows every operand
+            push(name, flags, vec![int(0x3ffffff); 70]);
+        }
+    }
+    for name in ["op_gr", "op_logand", "op_logior", "op_logxor", "op_lognot", "op_ash", "op_lsh", "op_div", "op_divmod", "op_mod"] {
+        for flags in [0u32, 0x2000] {
+            for _ in 0..n.max(20) {
+                let a = *rng.pick(&vals);
+                let mut b = *rng.pick(&vals);
+                if (name == "op_ash" || name == "op_lsh") && b.abs() > 0x100 {
+                    b = b.signum() * 9;
+                }
+                let args = if name == "op_lognot" { vec![int(a)] } else { vec![int(a), int(b)] };
+                push(name, flags, args);
+            }
         }
     }
     out
